@@ -605,3 +605,79 @@ Proof.
   intros H s Hp He Hi. pose proof (exactly_once_accounting c0 ops H) as R. fold s in R.
   unfold live in R. rewrite Hp, He, Hi in R. simpl in R. exact R.
 Qed.
+
+(* ------------------------------------------------------------------ late responses *)
+
+Definition is_call (o : op) : bool := match o with OCall _ _ => true | _ => false end.
+
+(* no call made during [ops] is given the sequence number k *)
+Fixpoint avoids (k : Z) (s : st) (ops : list op) : Prop :=
+  match ops with
+  | [] => True
+  | o :: r => (is_call o = true -> oseq (snd (step s o)) <> k) /\ avoids k (fst (step s o)) r
+  end.
+
+Lemma lookup_filter_none (f : Z * ctx -> bool) k p : lookup k p = None -> lookup k (filter f p) = None.
+Proof. rewrite !lookup_None. intros H Hin. apply H. eapply keys_filter_sub; eauto. Qed.
+
+Lemma lookup_remove_none j k p : lookup k p = None -> lookup k (remove j p) = None.
+Proof.
+  intros H. destruct (Z.eq_dec k j) as [->|Hne]; [apply lookup_remove_same|].
+  rewrite lookup_remove_other by exact Hne. exact H.
+Qed.
+
+(* a number that is not in the table stays out of it as long as no call is given that number *)
+Lemma unmatched_step s o k : lookup k (pending s) = None ->
+  (is_call o = true -> oseq (snd (step s o)) <> k) -> lookup k (pending (fst (step s o))) = None.
+Proof.
+  intros L A. destruct o as [sync dl|r|now| |r| |n]; cbn [step] in *.
+  - destruct (probe fuel16 (counter s) (pending s)) as [seq|] eqn:P; simpl in *.
+    + specialize (A eq_refl). destruct (k =? seq) eqn:E; [apply Z.eqb_eq in E; congruence|].
+      apply lookup_remove_none. exact L.
+    + exact L.
+  - destruct (lookup (rseq r) (pending s)); simpl; [apply lookup_remove_none|]; exact L.
+  - simpl. apply lookup_filter_none. exact L.
+  - exact L.
+  - destruct (lookup (rseq r) (pending s)); simpl; [apply lookup_remove_none|]; exact L.
+  - exact L.
+  - destruct (nth_error (inflight s) n) as [[c r]|]; simpl; exact L.
+Qed.
+
+Lemma unmatched_run ops : forall s k, lookup k (pending s) = None -> avoids k s ops ->
+  lookup k (pending (fst (run s ops))) = None.
+Proof.
+  induction ops as [|o ops IH]; intros s k L A; simpl; [exact L|].
+  destruct A as [A1 A2]. pose proof (unmatched_step s o k L A1) as L1.
+  destruct (step s o) as [s1 x] eqn:E1. simpl in *. specialize (IH s1 k L1 A2).
+  destruct (run s1 ops) as [s2 xs]. simpl in *. exact IH.
+Qed.
+
+(* "a response arriving after that is treated as unmatched": from the sweep that found the call
+   overdue onwards — while the call sits on the expired list, after ReapTimeout has completed it,
+   whatever else happens in between — as long as no newer call has been given the same number *)
+Theorem late_unmatched_general s now k c : Inv s -> In (k, c) (pending s) -> cdl c < now ->
+  forall ops, avoids k (fst (step s (OSweep now))) ops ->
+  forall r, rseq r = k ->
+  let s2 := fst (run (fst (step s (OSweep now))) ops) in
+  step s2 (ODispatch r) = (s2, mkout 0 1 []) /\ step s2 (OStrip r) = (s2, mkout 0 1 []).
+Proof.
+  intros I Hin Hd ops A r Hr s2.
+  assert (L1 : lookup k (pending (fst (step s (OSweep now)))) = None).
+  { destruct (step s (OSweep now)) as [s1 x1] eqn:E. destruct (sweep_spec _ _ I _ _ E) as [_ [P _]].
+    simpl. apply (P k c Hin Hd). }
+  pose proof (unmatched_run ops _ k L1 A) as L2. fold s2 in L2.
+  cbn [step]. rewrite Hr, L2. split; reflexivity.
+Qed.
+
+(* ... and the limit of it: once a newer call HAS been given the number (possible only after the
+   16-bit counter has gone round: 65535 further calls), the late response completes that newer call *)
+Theorem late_hits_reissued s sync dl : Inv s ->
+  forall s' x, step s (OCall sync dl) = (s', x) -> oseq x <> 0 ->
+  forall r, rseq r = oseq x ->
+  ocomps (snd (step s' (ODispatch r))) = [complete (mkctx (ncalls s) sync dl) r].
+Proof.
+  intros I s' x H Hz r Hr.
+  destruct (call_spec s sync dl I s' x H) as [[_ [_ [L _]]]|[Z0 _]]; [|congruence].
+  cbn [step]. rewrite Hr, L. reflexivity.
+Qed.
+
